@@ -298,6 +298,12 @@ func (s *Service) StartWithBackoff(ctx context.Context, rp *runnablePipeline) er
 		return nil
 	}
 
+	// A force stop accepted while the pipeline was waiting to be restarted found
+	// no live run to kill: it must still end the pipeline for good.
+	if rp.forceStopped.Load() {
+		return cerrors.FatalError(pipeline.ErrForceStop)
+	}
+
 	return s.Start(ctx, rp.pipeline.ID)
 }
 
